@@ -1591,6 +1591,9 @@ class TT():
                 "n-model product works only with TT-tensors and not TT matrices.")
 
         if isinstance(factor_matrices, list) and isinstance(mode, list):
+            if len(factor_matrices) != len(mode):
+                raise InvalidArguments(
+                    'The list of factor matrices and the list of modes must have the same length.')
             cores_new = [c.clone() for c in self.cores]
             for i in range(len(factor_matrices)):
                 if cores_new[mode[i]].shape[1] != factor_matrices[i].shape[1]:
